@@ -477,7 +477,10 @@ async def main(args):
         # they do, which stretches the windows of unsynchronised read-modify-write sequences from nanoseconds to milliseconds
         import subprocess
         import sys
-        burners = [subprocess.Popen([sys.executable, "-c", "while True: pass"]) for _ in range(os.cpu_count() or 4)]
+        # (each burner ends by itself after 60 s, whatever happens to this process)
+        burners = [subprocess.Popen([sys.executable, "-c", "import time\nt = time.time() + 60\nwhile time.time() < t: pass"]) for _ in range(os.cpu_count() or 4)]
+        import atexit
+        atexit.register(lambda: [b.kill() for b in burners if b.poll() is None])
         prev = []
         for rnd in range(n_rounds):
             cur = []
